@@ -3,6 +3,9 @@ package rules
 import (
 	"fmt"
 	"go/token"
+	"go/types"
+	"sort"
+	"strings"
 
 	"golang.org/x/tools/go/ssa"
 
@@ -308,5 +311,576 @@ func c06NoOmit(c *Ctx) {
 	}
 	if n == 0 {
 		c.R.Errorf("no xBestIndex implementation delegating to s3db.(*VirtualTable).BestIndex found")
+	}
+}
+
+// ---- C06.scan-start: typestate of the tree cursor between its creation and the first step ---------
+//
+// mast's cursor API, as used here (github.com/jrhy/mast pub.go, trusted dependency):
+//   DB.Cursor()  -> at the root                                   (fresh)
+//   Min / Max    -> smallest / largest key *below the current position*; no-op on an empty path
+//   Ceil(k)      -> searches *downward from the current position*: on the first key >= k, or, when
+//                   there is none, on an empty path (exhausted); needs a non-empty path
+//   Get()        -> !ok exactly when there is no entry at the cursor (exhausted / empty tree)
+// An ascending scan may start from an exhausted cursor (no key >= lower bound: no rows). A
+// descending scan may not: "no key >= upper bound" means every key is below it, so the scan must
+// start from the largest key instead.
+
+const (
+	csStale     = 1 << iota // not created by this call, or moved by an earlier seek
+	csFresh                 // at the root
+	csAtMin                 // on the smallest key
+	csAtMax                 // on the largest key
+	csAtOrAbove             // on the first key >= the bound
+	csExhausted             // empty path: no key >= the bound
+)
+
+func csString(s int) string {
+	names := []string{"stale", "fresh", "at-min", "at-max", "at-or-above-bound", "exhausted"}
+	out := ""
+	for i, n := range names {
+		if s&(1<<i) != 0 {
+			if out != "" {
+				out += "|"
+			}
+			out += n
+		}
+	}
+	if out == "" {
+		return "none"
+	}
+	return out
+}
+
+type scanState struct {
+	cs       int
+	desc     int       // -1 unknown, 0 ascending, 1 descending
+	lastGet  ssa.Value // Get() call whose ok still describes the cursor
+	nonEmpty bool      // a test of the tree's Size() against 0 showed it has entries
+}
+
+func (s scanState) Key() string {
+	return fmt.Sprintf("%d/%d/%p/%v", s.cs, s.desc, s.lastGet, s.nonEmpty)
+}
+
+// sizeTest recognises a comparison of the tree's entry count with zero; returns whether the
+// condition being true means "has entries".
+func sizeTest(cond ssa.Value) (trueMeansNonEmpty bool, ok bool) {
+	b, isB := cond.(*ssa.BinOp)
+	if !isB {
+		return false, false
+	}
+	isSize := func(v ssa.Value) bool {
+		cl, ok := an.Unwrap(v).(*ssa.Call)
+		return ok && calleeLabel(cl) == "Size"
+	}
+	isZero := func(v ssa.Value) bool {
+		k, ok := v.(*ssa.Const)
+		return ok && k.Value != nil && k.Value.String() == "0"
+	}
+	switch {
+	case isSize(b.X) && isZero(b.Y):
+		switch b.Op {
+		case token.EQL, token.LEQ:
+			return false, true
+		case token.NEQ, token.GTR:
+			return true, true
+		}
+	case isZero(b.X) && isSize(b.Y):
+		switch b.Op {
+		case token.EQL, token.GEQ:
+			return false, true
+		case token.NEQ, token.LSS:
+			return true, true
+		}
+	}
+	return false, false
+}
+
+func init() {
+	register(&Rule{Name: "C06.scan-start", Min: 1, Run: c06ScanStart,
+		Doc: "typestate of the tree cursor in Cursor.Filter: every seek runs on a cursor fresh from the root, and a descending scan never starts from a cursor that Ceil left exhausted"})
+	byProp["C06"] = append(byProp["C06"], "C06.scan-start")
+	explain["C06"] += " scan-start: a typestate analysis of the tree cursor over all feasible paths of Cursor.Filter (states stale / fresh / at-min / at-max / at-or-above-bound / exhausted; transitions from mast's documented cursor API): when the first step of the scan (Next) is reached, an ascending scan is at the smallest key or on Ceil's result, a descending scan is at the largest key or on a key at or above the upper bound — never on a cursor that Ceil left exhausted, which means 'every key is below the bound' and must restart from the largest key."
+}
+
+func c06ScanStart(c *Ctx) {
+	const rule = "C06.scan-start"
+	fn := mustFunc(c, "", "*Cursor", "Filter")
+	curF := mustField(c, "", "Cursor", "cursor")
+	descF := mustField(c, "", "Cursor", "desc")
+	next := mustFunc(c, "", "*Cursor", "Next")
+	if fn == nil || curF == nil || descF == nil || next == nil {
+		return
+	}
+	name := core.FuncName(fn)
+	sc := c.Scope(fn)
+	type finding struct {
+		pos, msg string
+	}
+	bad := map[string]finding{}
+	starts := map[string]string{} // Next call pos -> states seen (for the evidence)
+	seeks := 0
+	onCursor := func(call ssa.CallInstruction) bool {
+		rv := an.RecvValue(call)
+		return rv != nil && an.HasField(rv, curF)
+	}
+	h := an.THooks{}
+	h.Instr = func(in ssa.Instruction, st0 an.TState) an.TState {
+		st := st0.(scanState)
+		switch x := in.(type) {
+		case *ssa.Store:
+			fa, ok := x.Addr.(*ssa.FieldAddr)
+			if !ok || an.FieldVar(fa.X.Type(), fa.Field) != curF {
+				return st
+			}
+			st.lastGet = nil
+			st.cs = csStale
+			if ex, ok := an.Unwrap(x.Val).(*ssa.Extract); ok && ex.Index == 0 {
+				if cl, ok := ex.Tuple.(*ssa.Call); ok && an.CalleeIs(cl, kvPkg, "DB", "Cursor") {
+					st.cs = csFresh
+				}
+			}
+			return st
+		}
+		call, ok := in.(ssa.CallInstruction)
+		if !ok {
+			return st
+		}
+		if cal := call.Common().StaticCallee(); cal == next {
+			key := c.P.Pos(call.Pos())
+			starts[key] = csString(st.cs)
+			allowed := csAtOrAbove
+			dir := "a scan of unknown direction"
+			switch st.desc {
+			case 0:
+				allowed = csAtMin | csAtOrAbove | csExhausted
+				dir = "an ascending scan"
+			case 1:
+				allowed = csAtMax | csAtOrAbove
+				dir = "a descending scan"
+			}
+			if off := st.cs &^ allowed; off != 0 {
+				msg := fmt.Sprintf("%s can start from a cursor in state %s", dir, csString(off))
+				switch {
+				case off&csExhausted != 0:
+					msg += ": Ceil found no key at or above the upper bound, so every key qualifies, but the exhausted cursor yields no rows (e.g. 'where k <= 5 order by k desc', 'select max(k) … where k < 10' on keys 1..3 return nothing)"
+				case off&csStale != 0:
+					msg += ": the seek ran on a cursor that was not at the root"
+				case off&csFresh != 0:
+					msg += ": no seek between the creation of the cursor and the first step"
+				}
+				bad[key+"|"+csString(off)] = finding{key, msg}
+			}
+			return st
+		}
+		m := calleeLabel(call)
+		if !onCursor(call) {
+			return st
+		}
+		switch m {
+		case "Ceil", "Min", "Max":
+			seeks++
+			if m == "Max" && st.cs&csFresh != 0 && !st.nonEmpty {
+				key := c.P.Pos(call.Pos())
+				bad[key+"|empty"] = finding{key, "Max can run on a tree without entries: mast's Max then leaves the cursor at index -1 and the Get of the first step panics with 'index out of range [-1]' through cgo (e.g. 'select k from t order by k desc' on a newly created table); no test of the tree's Size() against zero guards this seek"}
+			}
+			n := 0
+			for b := 1; b <= csExhausted; b <<= 1 {
+				if st.cs&b == 0 {
+					continue
+				}
+				switch {
+				case b == csFresh && m == "Ceil":
+					n |= csAtOrAbove | csExhausted
+				case b == csFresh && m == "Min":
+					n |= csAtMin
+				case b == csFresh && m == "Max":
+					n |= csAtMax
+				case b == csExhausted && m != "Ceil":
+					n |= csExhausted // no-op on an empty path
+				default:
+					n |= csStale
+				}
+			}
+			st.cs = n
+			st.lastGet = nil
+		case "Get":
+			if v, ok := in.(ssa.Value); ok {
+				st.lastGet = v
+			}
+		case "Forward", "Backward":
+			st.cs = csStale
+			st.lastGet = nil
+		}
+		return st
+	}
+	h.Branch = func(iff *ssa.If, side bool, st0 an.TState) an.TState {
+		st := st0.(scanState)
+		cond, neg := an.StripNot(iff.Cond)
+		val := side != neg // truth of cond on this side
+		if an.FieldOfLoad(cond) == descF {
+			want := 0
+			if val {
+				want = 1
+			}
+			if st.desc >= 0 && st.desc != want {
+				return nil
+			}
+			st.desc = want
+			return st
+		}
+		if tne, ok := sizeTest(cond); ok {
+			st.nonEmpty = tne == val
+			return st
+		}
+		if ex, ok := cond.(*ssa.Extract); ok && st.lastGet != nil && ex.Tuple == st.lastGet && ex.Index == 2 {
+			if val { // there is an entry at the cursor
+				st.cs &^= csExhausted
+			} else if st.cs&(csAtOrAbove|csExhausted) != 0 {
+				st.cs = st.cs&^csAtOrAbove | csExhausted
+			}
+			if st.cs == 0 {
+				return nil
+			}
+		}
+		return st
+	}
+	an.WalkTypestate(fn, scanState{cs: csStale, desc: -1}, h, sc)
+	if len(starts) == 0 || seeks == 0 {
+		c.R.Unk(rule, name+": scan start", c.P.Pos(fn.Pos()), fmt.Sprintf("no first step (Next) reached with a seek before it (Next calls reached: %d, seeks: %d)", len(starts), seeks))
+		return
+	}
+	var sk []string
+	for k, v := range starts {
+		sk = append(sk, k+" in "+v)
+	}
+	sort.Strings(sk)
+	aspects := []struct{ what, marker, okMsg string }{
+		{"descending scan starts on a key", "exhausted", "on every feasible path the first step runs from a state allowed for its direction (" + strings.Join(sk, "; ") + ")"},
+		{"Max only on a tree with entries", "without entries", "every Max seek is guarded by a test of the tree's Size() against zero"},
+		{"seeks run on a fresh cursor", "", "every seek runs on the cursor created by this call, at the root"},
+	}
+	classify := func(msg string) int {
+		switch {
+		case strings.Contains(msg, "without entries"):
+			return 1
+		case strings.Contains(msg, "exhausted"):
+			return 0
+		}
+		return 2
+	}
+	var ks []string
+	for k := range bad {
+		ks = append(ks, k)
+	}
+	sort.Strings(ks)
+	hit := map[int]bool{}
+	for _, k := range ks {
+		f := bad[k]
+		a := classify(f.msg)
+		hit[a] = true
+		c.R.Bad(rule, name+": "+aspects[a].what, f.pos, f.msg)
+	}
+	for i, a := range aspects {
+		if !hit[i] {
+			c.R.OK(rule, name+": "+a.what, c.P.Pos(fn.Pos()), a.okMsg)
+		}
+	}
+}
+
+// ---- C06.step-guard: the tree cursor's step functions test the link they follow -------------------
+//
+// Sibling cross-check (Engler et al.: "check one element, use another" is a contradiction): the five
+// movement functions of mast's Cursor (the pinned dependency the scans run on) each decide whether
+// to descend into a child by a nil test of an element of node.Link and then load an element of
+// node.Link. Tested and followed element must be the same expression.
+
+
+func depMethod(c *Ctx, pkgPath, recv, name string) *ssa.Function {
+	pk := c.P.ByPath[pkgPath]
+	if pk == nil {
+		return nil
+	}
+	tn, _ := pk.Types.Scope().Lookup(recv).(*types.TypeName)
+	if tn == nil {
+		return nil
+	}
+	sel := c.P.SSA.MethodSets.MethodSet(types.NewPointer(tn.Type())).Lookup(pk.Types, name)
+	if sel == nil {
+		return nil
+	}
+	return c.P.SSA.MethodValue(sel)
+}
+
+func init() {
+	register(&Rule{Name: "C06.step-guard", Min: 4, Run: c06StepGuard,
+		Doc: "in each movement function of the tree cursor (Min, Max, Forward, Backward, Ceil of the pinned mast), the child link that is followed is the link whose presence was tested"})
+	byProp["C06"] = append(byProp["C06"], "C06.step-guard")
+	explain["C06"] += " step-guard: a sibling cross-check inside the pinned dependency the scans run on — each of mast's cursor movement functions tests an element of node.Link for nil and then follows an element of node.Link; the two must be the same expression (same node, same index), otherwise a step skips a sub-tree (rows silently missing from a scan) or follows an absent link."
+}
+
+func c06StepGuard(c *Ctx) {
+	const rule = "C06.step-guard"
+	linkElem := func(v ssa.Value) (*ssa.IndexAddr, bool) {
+		u, ok := v.(*ssa.UnOp)
+		if !ok || u.Op != token.MUL {
+			return nil, false
+		}
+		ia, ok := u.X.(*ssa.IndexAddr)
+		if !ok {
+			return nil, false
+		}
+		if f := an.FieldOfLoad(ia.X); f == nil || f.Name() != "Link" {
+			return nil, false
+		}
+		return ia, true
+	}
+	n := 0
+	for _, m := range []string{"Min", "Max", "Forward", "Backward", "Ceil"} {
+		fn := depMethod(c, mastPkg, "Cursor", m)
+		if fn == nil || len(fn.Blocks) == 0 {
+			c.R.Unk(rule, "mast.(*Cursor)."+m, "-", "method not found in the pinned dependency")
+			continue
+		}
+		name := "mast.(*Cursor)." + m
+		c.R.SawFunc(name)
+		// nil tests of Link elements
+		type test struct {
+			iff    *ssa.If
+			ia     *ssa.IndexAddr
+			nonNil int // successor index of the non-nil side
+		}
+		var tests []test
+		for _, b := range fn.Blocks {
+			iff, ok := b.Instrs[len(b.Instrs)-1].(*ssa.If)
+			if !ok {
+				continue
+			}
+			cond, neg := an.StripNot(iff.Cond)
+			bo, ok := cond.(*ssa.BinOp)
+			if !ok || bo.Op != token.EQL && bo.Op != token.NEQ {
+				continue
+			}
+			var tested ssa.Value
+			if k, ok := bo.Y.(*ssa.Const); ok && k.Value == nil {
+				tested = bo.X
+			} else if k, ok := bo.X.(*ssa.Const); ok && k.Value == nil {
+				tested = bo.Y
+			}
+			if tested == nil {
+				continue
+			}
+			ia, ok := linkElem(tested)
+			if !ok {
+				continue
+			}
+			nn := 0
+			if (bo.Op == token.EQL) != neg {
+				nn = 1
+			}
+			tests = append(tests, test{iff, ia, nn})
+		}
+		// follows: load(ctx, Link[i]) and node.follow(ctx, i, …)
+		for _, call := range an.Calls(fn) {
+			var nodeKey, idxKey, what string
+			switch calleeLabel(call) {
+			case "load":
+				args := call.Common().Args
+				ia, ok := linkElem(args[len(args)-1])
+				if !ok {
+					continue
+				}
+				nodeKey, idxKey = an.ExprKey(ia.X), an.ExprKey(ia.Index)
+				what = "load of Link[" + idxKey + "]"
+			case "follow":
+				args := call.Common().Args
+				if len(args) < 3 {
+					continue
+				}
+				// receiver node; the link slice is node.Link
+				nodeKey, idxKey = "", an.ExprKey(args[2])
+				what = "follow(" + idxKey + ")"
+			default:
+				continue
+			}
+			// guarding tests: the non-nil side is the only way to the call
+			var guards []test
+			for _, t := range tests {
+				if an.OnlyVia(t.iff.Block(), t.nonNil, call.Block()) {
+					guards = append(guards, t)
+				}
+			}
+			if len(guards) == 0 {
+				continue
+			}
+			n++
+			good := false
+			var seen []string
+			for _, g := range guards {
+				gk := an.ExprKey(g.ia.Index)
+				seen = append(seen, "Link["+gk+"]")
+				if gk == idxKey && (nodeKey == "" || an.ExprKey(g.ia.X) == nodeKey) {
+					good = true
+				}
+			}
+			c.R.Cond(good, rule, name+": follows the link it tested", c.P.Pos(call.Pos()),
+				what+" is guarded by the nil test of the same element",
+				what+" is guarded by a nil test of a different element ("+strings.Join(seen, ", ")+"): when the two differ in presence a step skips the sub-tree between two keys, so a descending scan silently drops rows (entries_per_node=3, keys inserted 49,47,54,12: 'select a from t order by a desc' returns 54,12), or follows an absent link")
+		}
+	}
+	if n == 0 {
+		c.R.Unk(rule, "mast.(*Cursor): guarded follows", "-", "no guarded link follow found")
+	}
+}
+
+// ---- C06.plan-total / C06.order-consumed: xBestIndex answers every query shape ----------------------
+
+func init() {
+	register(&Rule{Name: "C06.plan-total", Min: 1, Run: c06PlanTotal,
+		Doc: "s3db.BestIndex never fails: every combination of constraints and ORDER BY terms SQLite can offer gets a plan (at worst a full scan that SQLite filters and sorts)"})
+	register(&Rule{Name: "C06.order-consumed", Min: 1, Run: c06OrderConsumed,
+		Doc: "the ORDER BY is reported as already satisfied only when its first term is the key column, and the scan direction is that term's"})
+	byProp["C06"] = append(byProp["C06"], "C06.plan-total", "C06.order-consumed", "C02.clock")
+	explain["C06"] += " clock (shared with C02): successive statements of one writer get distinct, increasing write times only if the clock reading is used at full resolution — coarsened to seconds, an UPDATE right after a write of the same row ties and is dropped."
+	explain["C06"] += " plan-total: an error from xBestIndex aborts a statement a native table would run, so s3db.BestIndex returns a nil error on every path. order-consumed: rows are produced in key order only, so OrderByConsumed may be claimed only on paths where the (first) ORDER BY term was compared with the key column and found equal; every path on which that comparison fails ends with AlreadyOrdered == false, and the direction flag comes from an OrderInput.Desc."
+}
+
+func c06PlanTotal(c *Ctx) {
+	const rule = "C06.plan-total"
+	fn := mustFunc(c, "", "*VirtualTable", "BestIndex")
+	if fn == nil {
+		return
+	}
+	name := core.FuncName(fn)
+	bad := false
+	for _, b := range fn.Blocks {
+		ret, ok := b.Instrs[len(b.Instrs)-1].(*ssa.Return)
+		if !ok || len(ret.Results) == 0 {
+			continue
+		}
+		ev := an.RetErr(ret)
+		if an.IsNilConst(ev) {
+			continue
+		}
+		bad = true
+		c.R.Bad(rule, name+": always answers", c.P.Pos(ret.Pos()), "xBestIndex can return an error: SQLite aborts the statement, where a native table runs it (e.g. any ORDER BY of two or more terms failed with 'order specified multiple times')")
+	}
+	if !bad {
+		c.R.OK(rule, name+": always answers", c.P.Pos(fn.Pos()), "every return carries a nil error")
+	}
+}
+
+type orderState int // last value stored to AlreadyOrdered on this path: 0 none, 1 true, 2 false, 3 unknown
+
+func (o orderState) Key() string { return fmt.Sprint(int(o)) }
+
+func c06OrderConsumed(c *Ctx) {
+	const rule = "C06.order-consumed"
+	fn := mustFunc(c, "", "*VirtualTable", "BestIndex")
+	ao := mustField(c, "", "IndexOutput", "AlreadyOrdered")
+	col := mustField(c, "", "OrderInput", "Column")
+	descF := mustField(c, "", "OrderInput", "Desc")
+	keyCol := mustField(c, "", "VirtualTable", "KeyCol")
+	if fn == nil || ao == nil || col == nil || keyCol == nil || descF == nil {
+		return
+	}
+	name := core.FuncName(fn)
+	// the comparison "order[..].Column <op> c.KeyCol"
+	type cmp struct {
+		iff   *ssa.If
+		neqIx int
+	}
+	var cmps []cmp
+	for _, b := range fn.Blocks {
+		iff, ok := b.Instrs[len(b.Instrs)-1].(*ssa.If)
+		if !ok {
+			continue
+		}
+		cond, neg := an.StripNot(iff.Cond)
+		bo, ok := cond.(*ssa.BinOp)
+		if !ok || bo.Op != token.EQL && bo.Op != token.NEQ {
+			continue
+		}
+		fx, fy := an.FieldOfLoad(bo.X), an.FieldOfLoad(bo.Y)
+		if !(fx == col && fy == keyCol || fx == keyCol && fy == col) {
+			continue
+		}
+		neqIx := 1
+		if (bo.Op == token.NEQ) != neg {
+			neqIx = 0
+		}
+		cmps = append(cmps, cmp{iff, neqIx})
+	}
+	if len(cmps) == 0 {
+		c.R.Bad(rule, name+": consumed only for the key", c.P.Pos(fn.Pos()), "no comparison of an ORDER BY term's column with the key column: OrderByConsumed would be claimed for orderings the scan does not produce")
+		return
+	}
+	h := an.THooks{Instr: func(in ssa.Instruction, st an.TState) an.TState {
+		if s, ok := in.(*ssa.Store); ok {
+			if fa, ok := s.Addr.(*ssa.FieldAddr); ok && an.FieldVar(fa.X.Type(), fa.Field) == ao {
+				if v, isC := constBool(s.Val); isC {
+					if v {
+						return orderState(1)
+					}
+					return orderState(2)
+				}
+				return orderState(3)
+			}
+		}
+		return st
+	}}
+	for _, cm := range cmps {
+		b := cm.iff.Block()
+		exits, _ := an.WalkTypestateFrom(b.Succs[cm.neqIx], 0, orderState(0), nil, h, nil)
+		good := len(exits) > 0
+		why := ""
+		for _, ex := range exits {
+			if ex.St.(orderState) != 2 {
+				good = false
+				why = "a path on which an ORDER BY term is not the key column reaches " + c.P.Pos(ex.Ret.Pos()) + " without AlreadyOrdered == false: SQLite would skip its sort although rows come back in key order"
+			}
+		}
+		c.R.Cond(good, rule, name+": consumed only for the key", c.P.Pos(cm.iff.Cond.Pos()), "every path from the 'not the key column' side ends with AlreadyOrdered == false", why)
+	}
+	// the direction: every value that decides "desc" comes from an OrderInput.Desc (or is the constant false)
+	idx := mustField(c, "", "IndexOutput", "IdxStr")
+	if idx == nil {
+		return
+	}
+	n := 0
+	for _, st := range an.StoresToField(fn, idx) {
+		// stores of the "desc "/"asc  " prefix are guarded by the direction value
+		k := ""
+		if bo, ok := st.Val.(*ssa.BinOp); ok && bo.Op == token.ADD {
+			for _, v := range []ssa.Value{bo.X, bo.Y} {
+				if cst, ok := v.(*ssa.Const); ok && cst.Value != nil && strings.Contains(cst.Value.ExactString(), "desc") {
+					k = "desc"
+				}
+			}
+		} else if cst, ok := st.Val.(*ssa.Const); ok && cst.Value != nil && strings.Contains(cst.Value.ExactString(), "desc") {
+			k = "desc"
+		}
+		if k != "desc" {
+			continue
+		}
+		n++
+		// the governing condition
+		good := false
+		why := "the descending prefix is not chosen by an ORDER BY term's Desc flag"
+		for _, b := range fn.Blocks {
+			iff, ok := b.Instrs[len(b.Instrs)-1].(*ssa.If)
+			if !ok || !an.OnlyVia(b, 0, st.Block()) && !an.OnlyVia(b, 1, st.Block()) {
+				continue
+			}
+			cond, _ := an.StripNot(iff.Cond)
+			if an.DependsOn(cond, func(v ssa.Value) bool { return an.FieldOfLoad(v) == descF }) {
+				good = true
+			}
+		}
+		c.R.Cond(good, rule, name+": direction from the ORDER BY term", c.P.Pos(st.Pos()), "the scan direction is decided by an OrderInput.Desc", why)
+	}
+	if n == 0 {
+		c.R.Unk(rule, name+": direction from the ORDER BY term", c.P.Pos(fn.Pos()), "no store of a 'desc' prefix to IdxStr found")
 	}
 }
